@@ -33,7 +33,8 @@ func (resp *DeviceAuthorizationResponse) UnmarshalJSON(data []byte) error {
 	}{
 		Alias: (*Alias)(resp),
 	}
-	if err := json.Unmarshal(data, &aux); err != nil {
+	// aux is already a pointer: decoding into &aux would let a JSON null reset it to nil
+	if err := json.Unmarshal(data, aux); err != nil {
 		return err
 	}
 	if resp.VerificationURI == "" {
